@@ -1,7 +1,7 @@
 // C10: linear views map a x + b y to a view(x) + b view(y).  One-step lemmas: the own-step and the output are linear maps of
 // (state, input); by induction over equal-length histories (the abstract states keep equal shape) this is superposition at every step.
-// Proved here: Sma, Cumulative (window sums), Ema, SuperSmoother, LaguerreFilter.  Alma, RoofingFilter and CyberCycle are covered
-// by the bounded search on the real crate only (stated in the evidence).
+// Proved here: Sma, Cumulative (window sums), Ema, SuperSmoother; c10_more: Alma, CyberCycle, RoofingFilter; c10_history: LaguerreFilter
+// and the induction over whole histories for all eight views.
 
 pub open spec fn lin(u: Seq<T>, w: Seq<T>, a: real, b: real) -> Seq<T> { Seq::new(u.len(), |i: int| mk(a * u[i].v() + b * w[i].v())) }
 pub proof fn lemma_sum_lin(u: Seq<T>, w: Seq<T>, a: real, b: real)
